@@ -298,6 +298,9 @@ func c05Run(r *core.Run) {
 	enc := world.Present(xml, compress, 6)
 	r.Logf("deliver sp=%s now=%s (%s) skew=%s loc=%s compress=%v", s.Cfg.Name, now.UTC().Format(time.RFC3339Nano), offDesc, s.Cfg.Skew, s.Cfg.Loc, compress)
 
+	if t.Int(6, "c05.ambient") == 1 {
+		s.NeighbourNoise(enc)
+	}
 	ai, out := s.Node.Retrieve(enc)
 	r.Steps++
 	r.Logf("sp retrieve -> %s %s", out.Class(), world.ErrClass(out.Err))
